@@ -1,3 +1,4 @@
+import TemplVerif.Generated.Skeletons
 import TemplVerif.Model.Buf
 import TemplVerif.Proofs.Buf
 import TemplVerif.Proofs.Prefix
@@ -75,5 +76,19 @@ example :
     let env : Sem.Env := [([115], { keys := [[115]], val := .str [118] true })]
     (Denote.run body env).out = [60, 112, 62] ∧ (Denote.run body env).err = true ∧
     (Denote.run body (Proofs.Prefix.clearErr env)).out = [60, 112, 62, 118, 60, 98, 62, 120, 60, 47, 98, 62, 60, 47, 112, 62] := by decide
+
+-- BEGIN transcription pins (written by tools/mkpins.py)
+/-- T1, transcription pins: the control structure and calls (extract/skeleton.go) of the functions whose models
+    were written by hand are the ones the models were transcribed from:
+      runtime/buffer.go Buffer.Flush
+      runtime/buffer.go Buffer.Write
+      runtime/buffer.go Buffer.WriteString
+    A change of what one of them calls or how it branches breaks this theorem; the check then searches for a
+    failing input and reports either that or `no-failing-input-found`. -/
+theorem C10_transcription_pinned :
+    Generated.skel_buffer_Flush = 10291836389689593901 ∧
+    Generated.skel_buffer_Write = 10621659015139386241 ∧
+    Generated.skel_buffer_WriteString = 9478870129110372894 := by decide
+-- END transcription pins
 
 end TemplVerif.Props.C10
